@@ -3,5 +3,6 @@
 pub mod c01;
 pub mod c07;
 pub mod c09;
+pub mod c17;
 pub mod common;
 pub mod tlsfix;
